@@ -111,6 +111,19 @@ pub struct SendObs {
 /// streaming body that cannot be rewound): the library cannot replay it; the model's `bodyRewindable = false`.
 pub const ONE_SHOT: &str = "application/x-one-shot";
 
+/// Content type that marks a caller's `Body` that flushes the writer before its first write and after every write.
+pub const FLUSHING: &str = "text/x-flushing";
+
+thread_local! {
+    /// (index of the dial that fails, io error kind code as in script::kind_of): the connection attempt itself fails
+    static DIAL_FAILURE: std::cell::Cell<Option<(usize, u8)>> = const { std::cell::Cell::new(None) };
+}
+
+/// the `i`-th connection attempt of the next `run_send` fails with that I/O error kind
+pub fn set_dial_failure(f: Option<(usize, u8)>) {
+    DIAL_FAILURE.with(|d| d.set(f));
+}
+
 pub struct CustomBody {
     pub kind: CustomKind,
     pub ctype: Option<String>,
@@ -127,12 +140,20 @@ impl attohttpc::body::Body for CustomBody {
     }
     fn write<W: Write>(&mut self, mut writer: W) -> std::io::Result<()> {
         let once = self.ctype.as_deref() == Some(ONE_SHOT);
+        let flushing = self.ctype.as_deref() == Some(FLUSHING);
         let writes = if once { std::mem::take(&mut self.writes) } else { self.writes.clone() };
+        if flushing {
+            writer.flush()?;
+        }
         for w in &writes {
             // a single `write` call per slice (zero-length slices included): the sink accepts everything
             let n = writer.write(w)?;
             if n < w.len() {
                 writer.write_all(&w[n..])?;
+            }
+            if flushing {
+                writer.flush()?;
+                writer.flush()?;
             }
         }
         Ok(())
@@ -529,6 +550,14 @@ fn finish<B: attohttpc::body::Body>(rb: attohttpc::RequestBuilder<B>, case: &Sen
     }
     let shared = Arc::new(Mutex::new(Shared { scripts: case.hops.iter().map(|h| h.0.clone()).collect(), next: 0, dials: vec![] }));
     let sh = shared.clone();
+    let dial_failure = DIAL_FAILURE.with(|d| d.take());
+    // the scripted connections of this case take 1 / 7 / 100 bytes per write call, or everything
+    crate::script::set_write_limit(match (case.url.len() + case.method.len() + case.pre.len()) % 5 {
+        0 => 1,
+        1 => 7,
+        2 => 100,
+        _ => usize::MAX,
+    });
     verif_hooks::set_dial_factory(Box::new(move |info| {
         // only http / https connections exist: anything else must take the production path
         // (which refuses the scheme)
@@ -538,6 +567,13 @@ fn finish<B: attohttpc::body::Body>(rb: attohttpc::RequestBuilder<B>, case: &Sen
         let mut s = sh.lock().unwrap();
         let i = s.next;
         s.next += 1;
+        if let Some((fi, kind)) = dial_failure {
+            if fi == i {
+                let (_, log) = Script::new(vec![]);
+                s.dials.push((info.clone(), log));
+                return Some(Err(std::io::Error::new(crate::script::kind_of(kind), "scripted dial failure")));
+            }
+        }
         let segs = s.scripts.get(i).cloned().unwrap_or_default();
         let (script, log) = Script::new(segs);
         s.dials.push((info.clone(), log));
@@ -546,6 +582,7 @@ fn finish<B: attohttpc::body::Body>(rb: attohttpc::RequestBuilder<B>, case: &Sen
     verif_hooks::set_plain_tunnels(case.plain_tunnel);
     let res = catch_unwind(AssertUnwindSafe(|| prepared.send()));
     verif_hooks::clear_dial_factory();
+    crate::script::set_write_limit(usize::MAX);
     let mut tunnels = verif_hooks::take_tunnel_log().into_iter();
     verif_hooks::set_plain_tunnels(false);
     obs.fin = match res {
@@ -627,8 +664,17 @@ pub fn run_send(case: &SendCase) -> SendObs {
         .allow_compression(case.compress)
         .proxy_settings(pb.build());
     let mut rb = rb;
-    for (k, v) in &case.params {
-        rb = rb.param(k, v);
+    // query pairs one at a time with param(), or — every other case — the first with param() and the rest in one
+    // params() call (on a URL that then already has a query)
+    if case.params.len() >= 2 && (case.url.len() + case.params.len()) % 2 == 0 {
+        rb = rb.param(&case.params[0].0, &case.params[0].1);
+        rb = rb.params(case.params[1..].iter().map(|(k, v)| (k.clone(), v.clone())).collect::<Vec<(String, String)>>());
+    } else if case.params.len() == 1 && case.url.contains('?') && case.url.len() % 2 == 0 {
+        rb = rb.params(case.params.clone());
+    } else {
+        for (k, v) in &case.params {
+            rb = rb.param(k, v);
+        }
     }
     let rb = apply_steps(rb, &case.pre);
     match &case.body {
